@@ -14,7 +14,7 @@ from .program import Program, Crate
 from .refsem import RefDef, Undefined
 from .rx import Def, Rule
 
-WIT_TIMEOUT = 120
+WIT_TIMEOUT = 60
 
 
 class Witness(object):
